@@ -95,3 +95,26 @@ impl log4rs::filter::Filter for FixedFilter {
         }
     }
 }
+
+/// File timestamps are part of the environment a rolling appender starts in and none of the
+/// properties lets them matter: give a pre-existing file / directory one of a few modification
+/// times (now, seconds or an hour or a year ahead, a day ago, 2001, the epoch), cycling through
+/// them on every call so that every driver sees all of them.
+pub fn vary_mtime(path: &std::path::Path) {
+    use std::sync::atomic::{AtomicUsize, Ordering};
+    use std::time::{Duration, SystemTime, UNIX_EPOCH};
+    static TURN: AtomicUsize = AtomicUsize::new(0);
+    let now = SystemTime::now();
+    let t = match TURN.fetch_add(1, Ordering::SeqCst) % 7 {
+        0 => return,
+        1 => now + Duration::from_secs(5),
+        2 => now + Duration::from_secs(3600),
+        3 => now - Duration::from_secs(86_400),
+        4 => UNIX_EPOCH + Duration::from_secs(978_307_200),
+        5 => now + Duration::from_secs(400 * 86_400),
+        _ => UNIX_EPOCH,
+    };
+    if let Ok(f) = std::fs::File::open(path) {
+        let _ = f.set_modified(t);
+    }
+}
